@@ -506,6 +506,7 @@ def gen_history(rng, flavour, nsteps, p_remove=0.12):
     env = Env(flavour, 0)
     hist = []
     counter = [0]
+    pending = []
 
     def fresh(prefix):
         counter[0] += 1
@@ -593,6 +594,13 @@ def gen_history(rng, flavour, nsteps, p_remove=0.12):
                 add(4 if flavour == 'sub' else 2, mk_link)
             if flavour == 'exp' and v.n:
                 def mk_mark():
+                    subs = [x for x in v.n if v.typ(x) == 'SubInterface' and v.iface_path(x)]
+                    if subs and rng.random() < 0.3:
+                        # a sub-interface (alone, or - one time in three - together with the port above it)
+                        x = rng.choice(subs)
+                        if rng.random() < 0.33 and v.parent_cp(x) and v.iface_path(v.parent_cp(x)[0]):
+                            pending.append(['mark', ['if', v.iface_path(v.parent_cp(x)[0])], 'Failed'])
+                        return ['mark', ['if', v.iface_path(x)], 'Failed']
                     i = rng.choice(sorted(v.n))
                     c = v.cls(i)
                     if c == 'NetworkNode':
@@ -648,11 +656,13 @@ def gen_history(rng, flavour, nsteps, p_remove=0.12):
             op = rng.choices(cand, weights=w)[0]()
             if op is None:
                 continue
-            hist.append(op)
-            try:
-                run_build(env, op)
-            except Exception:
-                env.errors += 1
+            for op1 in [op] + pending:
+                hist.append(op1)
+                try:
+                    run_build(env, op1)
+                except Exception:
+                    env.errors += 1
+            del pending[:]
         return hist, env.snapshot(), set(env.kept)
     finally:
         env.close()
